@@ -6,6 +6,7 @@ Tie for the atoms: pairs of real grids differing in exactly one entry / count / 
 with `==`, `!=` and the model on the same data.
 """
 import json
+import math
 from fractions import Fraction
 
 import numpy as np
@@ -150,6 +151,34 @@ def main(ck):
             l3 = list(lon); l3[0] = lon[0] + 0.5 if lon[0] < 179 else lon[0] - 0.5
             h3 = mk_grid(l3, lat, table)
             eval_pair(ck, g2, h3, "lon_after_" + hname, results, lines)
+        # sources that hold Cartesian coordinates only: == / != asked BEFORE anything derived lon/lat on either operand
+        try:
+            import xarray as xr
+
+            def cart(nodes, tb):
+                ds = xr.Dataset()
+                for k_, nm in enumerate(("node_x", "node_y", "node_z")):
+                    ds[nm] = xr.DataArray(np.array([p_[k_] for p_ in nodes], dtype=float), dims=["n_node"])
+                ds["face_node_connectivity"] = xr.DataArray(np.array(tb, dtype=np.intp), dims=["n_face", "n_max_face_nodes"])
+                return ux.Grid.from_dataset(ds, source_grid_spec="Cartesian Source")
+            moved = [tuple(p_) for p_ in m.nodes]
+            x0, y0, z0 = moved[0]
+            ang = 0.3
+            moved[0] = (x0 * math.cos(ang) - y0 * math.sin(ang), x0 * math.sin(ang) + y0 * math.cos(ang), z0)   # one node moved in longitude
+            for kind_c, nodes_h, exp_c in (("cartesian_identical_fresh", m.nodes, True), ("cartesian_one_node_moved_fresh", moved, abs(x0) + abs(y0) < 1e-12)):
+                gc, hc = cart(m.nodes, table), cart(nodes_h, table)
+                ck.note_case((kind_c, table))
+                hist[kind_c] = hist.get(kind_c, 0) + 1
+                try:
+                    eqc, nec, eqs = (gc == hc), (gc != hc), (hc == gc)
+                except Exception as ex:
+                    ck.fail("raises", {"kind": kind_c, "nodes": [list(p_) for p_ in m.nodes], "table": table}, {"kind": kind_c}, detail=repr(ex))
+                    continue
+                if not isinstance(eqc, (bool, np.bool_)) or bool(eqc) != exp_c or bool(nec) != (not exp_c) or bool(eqs) != exp_c:
+                    ck.fail("eq_iff" if exp_c else "distinguishes_lon_big", {"kind": kind_c, "nodes": [list(p_) for p_ in m.nodes], "table": table},
+                            {"kind": kind_c}, detail="== %r, != %r, reversed == %r; expected equal=%r" % (eqc, nec, eqs, exp_c))
+        except Exception as ex:
+            ck.fail("raises", {"kind": "cartesian_fresh"}, {"kind": "cartesian_fresh"}, detail=repr(ex))
         # reflexive, copy, non-Grid
         ck.note_case(("refl", lon, lat, table))
         eval_pair(ck, g, g, "reflexive", results, lines)
